@@ -530,6 +530,15 @@ theorem composite_history_safe (ops : List (COp κ ν × Nat)) (g : G κ ν) (h 
   | nil => exact ⟨h, h.nofault⟩
   | cons o os ih => exact ih _ (composite_op_safe o.1 o.2 g h).1
 
+/-- dropping the cache after any such history (each list drains its index and unboxes what it finds): no node is
+    unboxed twice, and every unboxed node is live and linked in the list that unboxes it -/
+theorem composite_drop_safe (ops : List (COp κ ν × Nat)) (g : G κ ν) (h : AG.Inv g) (cs : List Nat) (hcs : cs.Nodup) :
+    let g' := ops.foldl (fun g o => o.1.runAt o.2 g) g
+    (dropAll g' cs).Nodup ∧ ∀ c i, i ∈ (g'.idx c).map (·.2) → Has g' i (.inL c) := by
+  intro g'
+  have hI := history_inv ops g h
+  exact ⟨dropAll_nodup hI cs hcs, fun c i hi => dropAll_live hI c i hi⟩
+
 /-- what the invariant buys (1): a node is in at most one place — two lists never share a node, and a node owned by
     a frame is in no list -/
 theorem node_in_one_place (g : G κ ν) (h : AG.Inv g) (i : Nat) (t t' : Tag) (h1 : Has g i t) (h2 : Has g i t') : t = t' :=
